@@ -9,6 +9,7 @@ scheduler deciding task->worker assignment and completion order, BadInitializati
 import functools
 import hashlib
 import itertools
+import os
 
 import numpy as np
 
@@ -446,11 +447,22 @@ def run(ch, idx, tier):
     fault_state = {"consec": 0}
 
     def process_wrapper(self):
-        if p_retry and world.sample_stack and fault_state["consec"] < 3 and ch.flip("fault.badinit", p_retry):
+        sid_ = world.sample_stack[-1] if world.sample_stack else None
+        # injected rejections are capped per sample: together with a model's own rejection rate (50% for the
+        # 'uncertainty' project) and several simulations per attempt, uncapped injection exhausts the library's
+        # 50 attempts and the "failure" would be the simulator's doing
+        if p_retry and world.sample_stack and fault_state["consec"] < 3 and fault_state.setdefault(("n", sid_), 0) < 5 and ch.flip("fault.badinit", p_retry):
             fault_state["consec"] += 1
+            fault_state[("n", sid_)] += 1
             bump("fault:bad_initialization_injected")
             raise amodel.BadInitialization("injected by simulator")
         fault_state["consec"] = 0
+        if os.environ.get("ATOMSIM_DEBUG_C17"):
+            try:
+                return orig_process(self)
+            except amodel.BadInitialization:
+                print("NATURAL-BADINIT pid", world.current.pid if hasattr(world.current, "pid") else "?", "stack", list(world.sample_stack), flush=True)
+                raise
         return orig_process(self)
 
     seams.patch(amodel.Model, "process", process_wrapper)
